@@ -21,6 +21,8 @@ def main():
     import glob
     for f in sorted(glob.glob(os.path.join(ROOT, "checks", "c*.manifest.json"))):
         d = json.load(open(f))
+        if d["property_id"] not in READY:
+            continue
         CHECKS[d["property_id"]] = d
         if d.get("not_applicable_reason"):
             NA[d["property_id"]] = d["not_applicable_reason"]; CHECKS.pop(d["property_id"])
@@ -62,5 +64,7 @@ def main():
     print("MANIFEST ok: %d checks, %d not_applicable" % (len(checks), len(na)))
 
 NA = {}
+# properties whose check has been integrated and run end-to-end by the lead
+READY = {'C01','C02','C03','C04','C06','C12','C16','C17','C20'}
 if __name__ == "__main__":
     main()
